@@ -22,6 +22,7 @@ Definitions used in the statements (`Lemmas/DpLive*.lean`):
 import ProfiVerif.Lemmas.DpLiveRuns
 import ProfiVerif.Lemmas.DpLiveMaster
 import ProfiVerif.Lemmas.DpLiveMasterRun
+import ProfiVerif.Lemmas.DpLiveNRun
 
 namespace PV.C07
 open PV PV.Dp PV.Live
@@ -358,6 +359,66 @@ theorem master_live_after_any_history {J0 : Joint} {p0 : Peripheral} (h0 : MInit
   obtain ⟨J', os, p', h2, _, h3, h4⟩ := master_live_from_everywhere hM hj nows ht
   exact ⟨J', os, p', h2, h3, by rw [← hfp]; exact h4⟩
 
+/-! ## Several peripherals
+
+`JointN` (`Model/Dp/LiveN.lean`): the `DpMaster` with peripherals in slots `0 … n-1` (what `add` produces),
+one reference slave per peripheral on the same bus (every slave hears every telegram, only the addressed
+one reacts).  `NGood J ps k`: dense storage, Operate, distinct slave addresses (none of them 127), cycle
+index within range, and every slot's pair is good and satisfies the joint invariant (`SlotOk`). -/
+
+/-- The bound for `n` peripherals in master turns: `(max_retry_limit + 8) (n + 1) + n` turns that are not
+global-control broadcasts — `max_retry_limit + 8` DP cycles of at most `n` visiting turns and one
+cycle-closing turn each, plus the remainder of the cycle in progress. -/
+def KN (fp : FdlParams) (n : Nat) : Nat := K fp * (n + 1) + n
+
+/-- **multi_turn.**  One fault-free `transmit_telegram` of a master with `n` peripherals: a broadcast the
+slaves ignore; or the closing of a completed cycle; or fault-free visits (`PJ.visit` of the slot's own
+pair, every other slot untouched) of the consecutive slots `i … j` starting at the cycle index — the
+slots before `j` declined silently in the same call — after which the index stands at `j + 1`, or the
+cycle is completed / wrapped when `j` is the last slot.  Round-robin: one visit per cycle each. -/
+theorem multi_turn {J : JointN} {ps : List Peripheral} {k : Nat} (hN : NGood J ps k) {now : Int} (hnow : timeB now) :
+    ∃ J' o ps', J.turn now none .ok = .ok J' o ∧ NGood J' ps' k ∧ J'.fp = J.fp ∧
+      ((o.isBroadcast = true ∧ ps' = ps ∧ J'.ss = J.ss ∧ J'.m.cycle = J.m.cycle) ∨
+       (o.isBroadcast = false ∧ J.m.cycle = .completed ∧ J'.m.cycle = .dx 0 ∧ ps' = ps ∧ J'.ss = J.ss) ∨
+       (o.isBroadcast = false ∧ ∃ i j, J.m.cycle = .dx i ∧ i ≤ j ∧ j < ps.length ∧
+          VisitedRange J.fp ps J.ss ps' J'.ss i (j + 1) ∧
+          ((j + 1 < ps.length ∧ J'.m.cycle = .dx (j + 1)) ∨
+           (j + 1 = ps.length ∧ (J'.m.cycle = .completed ∨ J'.m.cycle = .dx 0))))) :=
+  turnN_quiet hN hnow
+
+/-- **multi_live_from_everywhere.**  Liveness composes: a master with `n` peripherals, each facing its own
+healthy reference slave with matching configuration, in *any* state in which every pair is good and
+satisfies the joint invariant: every sequence of fault-free turns (arbitrary in-range times) runs without
+panic, and once it contains `(max_retry_limit + 8) (n + 1) + n` non-broadcast turns **every** peripheral
+`is_running()` — and stays so, the statement holding for every longer sequence. -/
+theorem multi_live_from_everywhere {J : JointN} {ps : List Peripheral} {k : Nat} (hN : NGood J ps k)
+    (nows : List Int) (ht : ∀ t ∈ nows, timeB t) :
+    ∃ J' os ps', J.quietTurns nows = some (J', os) ∧ NGood J' ps' k ∧ os.length = nows.length ∧
+      (KN J.fp ps.length ≤ nonBroadcast os →
+        ∀ l, l < ps.length → (ps'.getD l default).isRunning = true) := by
+  obtain ⟨J', os, ps', hq, hN', _, hlen', hlen, c, hv, hcount⟩ := quietTurnsN_progress nows ht hN
+  refine ⟨J', os, ps', hq, hN', hlen, ?_⟩
+  intro hk l hl
+  have hpos : posOf ps.length J'.m.cycle ≤ ps.length := by
+    rcases hN'.cycle with h | ⟨i, h, hi⟩
+    · rw [h]; exact Nat.le_refl _
+    · rw [h]; simp only [posOf]; omega
+  obtain ⟨v, evs, hquiet, hvc⟩ := hv l hl
+  have hKv : K (pjAt J.fp ps J.ss l).fp ≤ v := by
+    have hK : K (pjAt J.fp ps J.ss l).fp = K J.fp := rfl
+    rw [hK]
+    unfold KN at hk
+    rcases count_bound hcount hpos hk with h | ⟨h1, h2, h3⟩
+    · unfold ind at hvc; split at hvc <;> split at hvc <;> omega
+    · rw [h2, h3] at hvc
+      simp only [ind, hl, if_true, Nat.not_lt_zero, if_false] at hvc
+      omega
+  obtain ⟨j', evs', h2, h3⟩ := live_from_everywhere (hN.ok l hl).1 (hN.ok l hl).2 hKv
+  rw [hquiet] at h2
+  simp only [Option.some.injEq, Prod.mk.injEq] at h2
+  rw [← h2.1] at h3
+  exact h3
+
 /-! ## Non-vacuity -/
 
 /-- A fresh master with peripheral #7 (`Ex.p7`) and the matching slave after power-on. -/
@@ -402,6 +463,59 @@ theorem Ex.minitial : MInitial Ex.J0 Dp.Ex.p7 where
 running at the end. -/
 example : ((Ex.J0.quietTurns ((List.range 16).map fun (i : Nat) => ((1000 + 3000 * i : Nat) : Int))).map fun r =>
     (((r.1.m.peripheral? 0).map Peripheral.isRunning), nonBroadcast r.2)) = some (some true, 15) := by
+  decide +kernel
+
+/-- Two peripherals (#7 with one input byte, #9 with none) and their slaves on one master. -/
+def Ex.p9 : Peripheral :=
+  Peripheral.new 9 { ident := 0x1234, sync := true, freeze := false, groups := 0, userPrm := some [], config := some [0x55] }
+    [] [0] 0
+def Ex.cfg9 : SlaveCfg := { address := 9, ident := 0x1234, prmLen := 0, config := [0x55], inLen := 0, outLen := 1 }
+
+def Ex.J2 : JointN :=
+  { fp := Dp.Ex.fp,
+    m := { slots := denseSlots [Dp.Ex.p7, Ex.p9] 1, growable := false, op := .operate, lastGc := none,
+           cycle := .dx 0, lastEvents := {} },
+    ss := [Slave.init Witness.cfg [0xc0], Slave.init Ex.cfg9 []] }
+
+theorem Ex.good9 : Good ⟨Dp.Ex.fp, .operate, Ex.p9, Slave.init Ex.cfg9 []⟩ where
+  fp := Dp.Ex.fp_ok
+  op := by decide
+  pinv := pinv_new Dp.Ex.fp 9 _ [] [0] 0
+      (by intro up h; simp at h; subst h; decide)
+      (by intro c h; simp at h; subst h; decide) (by decide) (by decide)
+  m := ⟨rfl, ⟨[], rfl, rfl⟩, rfl, by decide, rfl, rfl, rfl⟩
+  s := ⟨rfl, rfl, rfl, by decide⟩
+
+theorem Ex.ngood2 : NGood Ex.J2 [Dp.Ex.p7, Ex.p9] 1 where
+  slots := rfl
+  op := rfl
+  len := rfl
+  n256 := by decide
+  pos := by decide
+  fpok := Dp.Ex.fp_ok
+  cycle := Or.inr ⟨0, rfl, by decide⟩
+  ok := by
+    intro l hl
+    match l, hl with
+    | 0, _ => exact ⟨Ex.good, jinv_initial (j := Ex.j0) Ex.initial⟩
+    | 1, _ => exact ⟨Ex.good9, jinv_initial (j := ⟨Dp.Ex.fp, .operate, Ex.p9, Slave.init Ex.cfg9 []⟩) ⟨rfl, rfl, rfl, rfl, rfl⟩⟩
+  addr := by
+    intro l hl
+    match l, hl with
+    | 0, _ => decide
+    | 1, _ => decide
+  distinct := by
+    intro l l' hl hl' hne
+    match l, l', hl, hl', hne with
+    | 0, 1, _, _, _ => decide
+    | 1, 0, _, _, _ => decide
+    | 0, 0, _, _, h => exact absurd rfl h
+    | 1, 1, _, _, h => exact absurd rfl h
+  gc := by intro t h; cases h
+
+/-- The two-peripheral bring-up, evaluated: 20 fault-free turns, both running. -/
+example : ((Ex.J2.quietTurns ((List.range 20).map fun (i : Nat) => ((1000 + 3000 * i : Nat) : Int))).map fun r =>
+    ((List.range 2).map fun l => (r.1.m.peripheral? l).map Peripheral.isRunning)) = some [some true, some true] := by
   decide +kernel
 
 end PV.C07
